@@ -35,6 +35,10 @@ var c11Progs = [][]apix.Op{
 	// 2: nested buckets, last commit deletes a bucket
 	{beginW, op("mkb", nil, "p", ""), op("mkb", P("p"), "q", ""), {K: "fill", P: P("p", "q"), Key: "k", V: "M", N: 5}, op("mkb", nil, "q", ""), commit,
 		beginW, op("delb", P("p"), "q", ""), op("put", P("q"), "a", "s"), commit},
+	// 3: a brand-new database (metas with txid 0 and 1, as written by init)
+	{},
+	// 4: exactly one commit after creation (txids 1 and 2)
+	{beginW, op("mkb", nil, "p", ""), op("put", P("p"), "a", "M"), commit},
 }
 
 var c11Cache = map[string]*c11State{}
@@ -51,6 +55,8 @@ func c11Build(ps int, flt string, prog int) (*c11State, error) {
 		return nil, fmt.Errorf("%v", f)
 	}
 	st := &c11State{models: map[uint64]*refmodel.Node{}, ps: ps, fl: flt}
+	// a new file holds two metas (txid 0 and 1) that both describe the empty database
+	st.models[0], st.models[1] = refmodel.New(), refmodel.New()
 	for _, o := range c11Progs[prog] {
 		if f := x.Do(o); f != nil {
 			return nil, fmt.Errorf("%v", f)
@@ -369,9 +375,9 @@ func C11(tier string) int {
 	start := time.Now()
 	LoadFindings()
 	sizes := []int{1024, 4096, 16384}
-	progs := []int{1}
+	progs := []int{1, 3}
 	if tier == "thorough" {
-		progs = []int{0, 1, 2}
+		progs = []int{0, 1, 2, 3, 4}
 	}
 	var meta []c11Job
 	for _, ps := range sizes {
